@@ -77,7 +77,7 @@ def prot_program(seed, mode=None, size=4):
 ERRVALS = ["str", "num", "nil", "true", "false", "table", "func", "emptystr", "numstr"]
 
 
-def errval_program(kind, catcher, level, via):
+def errval_program(kind, catcher, level, via, callstyle="plain"):
     """error(v [,level]) for v of every type, raised directly / from a nested function /
     from a host function, caught by pcall / xpcall / nested"""
     p = Prog()
@@ -96,7 +96,17 @@ def errval_program(kind, catcher, level, via):
     elif via == "assert":
         raiser = [p.assign([p.id("x")], [p.num(2)]), p.callstat(p.call(p.id("assert"), [p.false()] + ([val()] if kind in ("str", "emptystr", "numstr") else []))), p.assign([p.id("x")], [p.num(3)])]
     ss.append(p.localfunction("thrower", p.func([], p.block(raiser))))
-    ss.append(p.localfunction("caller", p.func([], p.block([p.callstat(p.call(p.id("thrower"), [])), p.emit([p.str("not reached")])]))))
+    # how the failing function is reached: the name the call site gives it feeds the stack trace
+    ss.append(p.local(["holder"], [p.table([("k", p.str(""), p.id("thrower")), ("k", p.str("a b"), p.id("thrower")), ("k", p.add("str", s=list(b"m"), name=True), p.func(["self"], p.block([p.ret([p.call(p.id("thrower"), [])])])))])]))
+    if callstyle == "emptykey":
+        thecall = p.call(p.index(p.id("holder"), p.str("")), [])
+    elif callstyle == "oddkey":
+        thecall = p.call(p.index(p.id("holder"), p.str("a b")), [])
+    elif callstyle == "method":
+        thecall = p.method(p.id("holder"), "m", [])
+    else:
+        thecall = p.call(p.id("thrower"), [])
+    ss.append(p.localfunction("caller", p.func([], p.block([p.callstat(thecall), p.emit([p.str("not reached")])]))))
     h = lambda: p.func(["m"], p.block([p.emit([p.str("handler"), p.id("m"), p.id("x")]), p.ret([p.id("m"), p.str("extra")])]))
     if catcher == "pcall":
         ss.append(p.emit([p.str("r"), p.call(p.id("pcall"), [p.id("caller")])]))
